@@ -58,10 +58,10 @@ func uploadWorld() *world.World {
 	s0 := node + input + "type Human implements Node {\n  id: ID!\n  name: String!\n}\n" +
 		"type Query {\n  node(id: ID!): Node\n  getHumans: [Human!]!\n}\n" +
 		"type Mutation {\n  upload(file: Upload, name: String): Human!\n  uploadMany(files: [Upload]!): String\n  uploadIn(input: FileInput!): String\n  plain(name: String): String\n}\n"
-	s1 := node + input + "type Human implements Node {\n  id: ID!\n  phone: String!\n}\n" +
+	s1 := node + input + "type Human implements Node {\n  id: ID!\n  phone: String!\n  verify(doc: Upload, note: String): String\n}\n" +
 		"type Query {\n  node(id: ID!): Node\n}\n" +
 		"type Mutation {\n  attach(file: Upload!, note: String): Human\n  attachIn(input: FileInput): String\n  other(name: String): String\n}\n"
-	u := node + input + "type Human implements Node {\n  id: ID!\n  name: String!\n  phone: String!\n}\n" +
+	u := node + input + "type Human implements Node {\n  id: ID!\n  name: String!\n  phone: String!\n  verify(doc: Upload, note: String): String\n}\n" +
 		"type Query {\n  node(id: ID!): Node\n  getHumans: [Human!]!\n}\n" +
 		"type Mutation {\n  upload(file: Upload, name: String): Human!\n  uploadMany(files: [Upload]!): String\n  uploadIn(input: FileInput!): String\n  plain(name: String): String\n" +
 		"  attach(file: Upload!, note: String): Human\n  attachIn(input: FileInput): String\n  other(name: String): String\n}\n"
@@ -69,7 +69,7 @@ func uploadWorld() *world.World {
 		Services: []world.Service{{URL: "http://svc-0.test/graphql", SDL: s0}, {URL: "http://svc-1.test/graphql", SDL: s1}},
 		UnionSDL: u,
 		Store: &world.Store{
-			Entities: map[string]*world.Entity{"Human_1": {Type: "Human", Fields: map[string]interface{}{"name": "ann", "phone": "111"}}},
+			Entities: map[string]*world.Entity{"Human_1": {Type: "Human", Fields: map[string]interface{}{"name": "ann", "phone": "111", "verify": "ver"}}},
 			Roots: map[string]interface{}{"Query.getHumans": []interface{}{"Human_1"}, "Mutation.upload": "Human_1", "Mutation.uploadMany": "many", "Mutation.uploadIn": "in",
 				"Mutation.plain": "plain", "Mutation.attach": "Human_1", "Mutation.attachIn": "attin", "Mutation.other": "other"},
 		},
@@ -249,6 +249,11 @@ func checkC19(c *UploadCase) (*ev.Failure, string) {
 		for _, o := range doc.Operations {
 			for _, vd := range o.VariableDefinitions {
 				declared[vd.Variable] = true
+				// child steps carry no operation name: the client's variables are named per operation (v<op>_<n>)
+				var a, b int
+				if n, _ := fmt.Sscanf(vd.Variable, "v%d_%d", &a, &b); n == 2 && oi < 0 && a < len(c.Ops) {
+					oi = a
+				}
 			}
 		}
 		expected := map[string]int{}
@@ -336,7 +341,7 @@ func genUploadCase(t *rapid.T) (*UploadCase, []string) {
 	for oi := 0; oi < nops; oi++ {
 		var vars []*upVar
 		newVar := func(typ string) *upVar {
-			v := &upVar{name: fmt.Sprintf("v%d", len(vars)), typ: typ}
+			v := &upVar{name: fmt.Sprintf("v%d_%d", oi, len(vars)), typ: typ}
 			switch typ {
 			case "Upload", "Upload!":
 				v.value = nil
@@ -389,27 +394,71 @@ func genUploadCase(t *rapid.T) (*UploadCase, []string) {
 			}
 			return newVar(typ)
 		}
+		// what is selected on a returned Human: fields of both services, sometimes one of the second service that takes
+		// a file itself (a child step carrying an upload, next to child steps that carry none)
+		humanSel := func() string {
+			switch rapid.IntRange(0, 3).Draw(t, "humansel") {
+			case 0:
+				labels["uploadInChildStep"] = true
+				return fmt.Sprintf("{ id name verify(doc: $%s, note: \"n\") }", pickVar("Upload").name)
+			case 1:
+				labels["uploadInChildStep"] = true
+				return fmt.Sprintf("{ id phone verify(doc: $%s) }", pickVar("Upload").name)
+			case 2:
+				return "{ id phone }"
+			}
+			return "{ id name phone }"
+		}
 		nfields := rapid.IntRange(1, 3).Draw(t, "nfields")
 		var sels []string
 		usedSvc := map[int]bool{}
 		for fi := 0; fi < nfields; fi++ {
 			alias := fmt.Sprintf("f%d", fi)
-			switch rapid.IntRange(0, 6).Draw(t, "field") {
-			case 0:
+			switch rapid.IntRange(0, 8).Draw(t, "field") {
+			case 0, 7, 8:
 				v := pickVar("Upload")
-				sels = append(sels, fmt.Sprintf("%s: upload(file: $%s, name: \"x\") { id name phone }", alias, v.name))
+				sels = append(sels, fmt.Sprintf("%s: upload(file: $%s, name: \"x\") %s", alias, v.name, humanSel()))
 				usedSvc[0] = true
 			case 1:
+				if rapid.IntRange(0, 2).Draw(t, "listliteral") == 0 {
+					a, b := pickVar("Upload"), pickVar("Upload")
+					sels = append(sels, fmt.Sprintf("%s: uploadMany(files: [$%s, $%s])", alias, a.name, b.name))
+					usedSvc[0] = true
+					labels["variablesInsideLiteral"] = true
+					break
+				}
 				v := pickVar("[Upload]!")
 				sels = append(sels, fmt.Sprintf("%s: uploadMany(files: $%s)", alias, v.name))
 				usedSvc[0] = true
 			case 2:
+				if rapid.IntRange(0, 2).Draw(t, "inliteral") == 0 {
+					// the input object written as a literal, the files are variables inside it (one or two levels deep)
+					field, svc := "uploadIn", 0
+					if rapid.Bool().Draw(t, "inliteralsvc") {
+						field, svc = "attachIn", 1
+					}
+					var parts []string
+					if rapid.Bool().Draw(t, "litfile") {
+						parts = append(parts, "file: $"+pickVar("Upload").name)
+					}
+					if rapid.Bool().Draw(t, "litfiles") {
+						a, b := pickVar("Upload"), pickVar("Upload")
+						parts = append(parts, fmt.Sprintf("files: [$%s, $%s]", a.name, b.name))
+					}
+					if len(parts) == 0 || rapid.Bool().Draw(t, "litnested") {
+						parts = append(parts, fmt.Sprintf("nested: {doc: $%s, label: \"l\"}", pickVar("Upload").name))
+					}
+					sels = append(sels, fmt.Sprintf("%s: %s(input: {%s, name: \"n\"})", alias, field, strings.Join(parts, ", ")))
+					usedSvc[svc] = true
+					labels["variablesInsideLiteral"] = true
+					break
+				}
 				v := pickVar("FileInput!")
 				sels = append(sels, fmt.Sprintf("%s: uploadIn(input: $%s)", alias, v.name))
 				usedSvc[0] = true
 			case 3:
 				v := pickVar("Upload!")
-				sels = append(sels, fmt.Sprintf("%s: attach(file: $%s, note: \"n\") { id name phone }", alias, v.name))
+				sels = append(sels, fmt.Sprintf("%s: attach(file: $%s, note: \"n\") %s", alias, v.name, humanSel()))
 				usedSvc[1] = true
 			case 4:
 				v := pickVar("FileInput")
@@ -489,7 +538,7 @@ func c19Gates(labels []string, c *UploadCase) []string {
 
 func TestC19(t *testing.T) {
 	rec := ev.Get("C19")
-	rec.Rule = "well-formed GraphQL multipart requests (single and batched 1..3 operations) against a two-service world whose mutations take Upload at top level, in lists, inside input objects (also in a list inside an object and two levels deep); 1..3 root fields per operation over both services, a variable possibly used by two fields/services, one file attached at 1..3 paths, file names with quotes/unicode/spaces, contents 0..64 KiB; built by the harness's own encoder. Oracle: response equals the reference executor; every service whose sub-request declares the variable receives a multipart request in which the same path refers to a part with the same file name and bytes; services that do not use the variable receive plain JSON and no file; non-trivial = a file below an object or list level, or used by 2 services, or one file at >=2 paths; distinct by hash(case)"
+	rec.Rule = "well-formed GraphQL multipart requests (single and batched 1..3 operations) against a two-service world whose mutations take Upload at top level, in lists, inside input objects (also in a list inside an object and two levels deep), the list or input object either a whole variable or a literal with Upload variables inside it; 1..3 root fields per operation over both services, selections on the returned entity that need child steps of which some take an Upload argument themselves (a child step with a file next to child steps without), a variable possibly used by two fields/services, one file attached at 1..3 paths, file names with quotes/unicode/spaces, contents 0..64 KiB; built by the harness's own encoder. Oracle: response equals the reference executor; every service whose sub-request declares the variable receives a multipart request in which the same path refers to a part with the same file name and bytes; services that do not use the variable receive plain JSON and no file; non-trivial = a file below an object or list level, or used by 2 services, or one file at >=2 paths; distinct by hash(case)"
 	defer census.dump("C19")
 	rapid.Check(t, func(t *rapid.T) {
 		c, labels := genUploadCase(t)
